@@ -126,7 +126,7 @@ def run(ctx, model_ok):
             ctx.sample({"text": c["text"], "printed": out, "reads back": O.f64(v["v"])})
     if model_ok:
         co = wire.Corr(ctx, compare=("kind", "value", "out"))
-        co.run([{"lang": "en", "text": c["text"]} for c in cases[:ctx.n(800, 10000)]])
+        co.run([{"lang": "en", "text": c["text"]} for c in cases[:ctx.n(1600, 10000)]])
         ctx.dist.update({"corr:" + k: v for k, v in co.stats.items()})
 
 
